@@ -347,6 +347,13 @@ pub fn modulus(r: &mut Rng, n: usize, odd_only: bool) -> Vec<u64> {
             v
         }
         10 => uint(r, n),
+        11 => {
+            // m in (0.39, 0.5) * 2^BITS: 2m < 2^BITS <= 3m, the range where an almost-Montgomery
+            // accumulator can still hold a value >= 2m (second final subtraction needed)
+            let mut v = random(r, n);
+            v[n - 1] = 0x63d7_0a3d_70a3_d70a + r.below(0x7fff_ffff_ffff_ffff - 0x63d7_0a3d_70a3_d70a);
+            v
+        }
         _ => random(r, n),
     };
     if odd_only {
